@@ -73,6 +73,7 @@ Definition head_of (f : file) (b : N) : N := hd 0 (f_chain f b).
 Inductive op := OpNew (nm : name) | OpAdd (k : N).
 
 Inductive fail :=
+  | FEmpty          (* "counter name empty" *)
   | FTooLong        (* "counter name too long" *)
   | FTries          (* errCorrupt: 10 remaps did not help *)
   | FLimitWithin    (* errCorrupt: limit within the mapping although lookup failed *)
@@ -228,7 +229,9 @@ Fixpoint dispatch (ops : list op) (t : thread) : thread :=
   match ops with
   | [] => set_pc Done (set_ops [] t)
   | OpNew nm :: ops' =>
-      if c_maxNameLen <? nlen nm
+      if nlen nm =? 0
+      then dispatch ops' (push_res (RFail FEmpty) (set_cell 0 t))
+      else if c_maxNameLen <? nlen nm
       then dispatch ops' (push_res (RFail FTooLong) (set_cell 0 t))
       else set_pc LHead (set_ops ops' (set_nm nm (set_tries 0 (set_map (t_map0 t) (set_cell 0 t)))))
   | OpAdd k :: ops' =>
